@@ -181,7 +181,12 @@ class GeminiClient:
 
         # Create protocol instance with normalized URL
         # Per spec: "client SHOULD add trailing '/' for empty paths"
-        protocol = GeminiClientProtocol(parsed.normalized, response_future)
+        # With TOFU the request is only sent once the certificate has been verified
+        protocol = GeminiClientProtocol(
+            parsed.normalized,
+            response_future,
+            send_on_connect=self.tofu_db is None,
+        )
 
         # Create connection using Protocol/Transport pattern
         try:
@@ -227,6 +232,9 @@ class GeminiClient:
                     elif message == "first_use":
                         # First time seeing this host - trust it
                         self.tofu_db.trust(parsed.hostname, parsed.port, cert)
+
+                # The peer is verified: now the request may be sent
+                protocol.send_request()
 
             # Wait for response with timeout
             response: GeminiResponse = await asyncio.wait_for(
@@ -376,7 +384,13 @@ class GeminiClient:
         response_future: asyncio.Future = loop.create_future()
 
         # Create protocol instance
-        protocol = TitanClientProtocol(titan_url, content_bytes, response_future)
+        # With TOFU the request is only sent once the certificate has been verified
+        protocol = TitanClientProtocol(
+            titan_url,
+            content_bytes,
+            response_future,
+            send_on_connect=self.tofu_db is None,
+        )
 
         # Create connection using Protocol/Transport pattern
         try:
@@ -422,6 +436,9 @@ class GeminiClient:
                     elif message == "first_use":
                         # First time seeing this host - trust it
                         self.tofu_db.trust(parsed.hostname, parsed.port, cert)
+
+                # The peer is verified: now the request may be sent
+                protocol.send_request()
 
             # Wait for response with timeout
             response: GeminiResponse = await asyncio.wait_for(
